@@ -74,12 +74,32 @@ func (e *exec) walTruncationCheck(where string) {
 			e.res.Count("wal_entries_checked", 1)
 		}
 	}
+	// what the retained untruncated log says about the same entries: an entry that had its label record before it
+	// there lost it to a truncation, even when the same ref number is issued again later in the log (listed finding:
+	// refs are reissued after a snapshot restart)
+	hadRecord := map[string]bool{}
+	entryKey := func(en walorder.Entry) string {
+		return fmt.Sprintf("%d/%s/%d/%d/%s", en.Seg, en.What, en.Ref, en.T, en.Key)
+	}
+	if len(orphans) > 0 {
+		full := walorder.ReadWAL(e.walArchive)
+		res, _ := walorder.RefOrder(full)
+		for i, en := range full.Entries {
+			if en.What != "series" && res[i] != "" {
+				hadRecord[entryKey(en)] = true
+			}
+		}
+	}
 	var late, dropped []walorder.Orphan
 	for _, o := range orphans {
-		if hasRecord[o.Entry.Ref] {
-			late = append(late, o) // the label record exists but comes later in replay order
-		} else {
+		switch {
+		case !hasRecord[o.Entry.Ref]:
 			dropped = append(dropped, o) // no label record anywhere in the log
+		case !o.Entry.InCP && hadRecord[entryKey(o.Entry)]:
+			dropped = append(dropped, o) // its label record was dropped; the ref was issued again afterwards
+			e.res.Count("orphans_of_a_reissued_ref", 1)
+		default:
+			late = append(late, o) // the label record exists but comes later in replay order
 		}
 	}
 	if len(dropped) > 0 {
